@@ -11,10 +11,14 @@ TRUSTED = [
     'modelled, not verified: genshi/core.py Markup/Attrs, genshi/_speedups.c escape (hand-written Lean model tied by three-way correspondence)',
     'not modelled: CPython str.replace / % formatting / str.join (their fragments are re-implemented in Lean), PyUnicode_AsUTF8AndSize (utf8 is re-implemented and compared on every scalar)',
     'strings with lone surrogates are outside Lean Char (known finding C18-surrogate)',
+    'wave 4, modelled not verified: Markup.escape/+/*/join/%/repr/unescape/stripentities/striptags in BOTH implementations, genshi.util striptags/plaintext/stripentities(keepxmlentities), Attrs accessors, QName, Namespace (Genshi.MarkupOps, stream markup-wide, one request per implementation, result types included)',
+    'only exercised: pickle, copy, hash, re (the regular expressions of util.py are hand-written list scanners; \\w \\d classes from the generated tables of C06)',
 ]
 ASSUMPTIONS = [
     'operands are str, Markup or objects with __html__ (non-string operands: known finding C18-nonstring)',
-    '% formatting fragment: %s %% %(k)s with a single value, a tuple or a mapping',
+    '% formatting fragment: %s %r %d %% and %(k)s %(k)r %(k)d with a single value, a tuple or a mapping (flags, widths, other conversions: answered unmodelled and counted)',
+    'laws are stated for string operands (str, str subclass, Markup, Markup subclass, __html__ object); None and ints are modelled per implementation and tied only',
+    'repr is modelled for ASCII text; slices for step 1',
 ]
 
 ALPHA = ['&', '<', '>', '"', "'", ';', '#', '3', '4', 'a', 'm', 'p', 'l', 't', 'g', 'q', 'u', 'o',
